@@ -26,6 +26,10 @@ func main() {
 		cmdExprTraceCheck(a)
 	case "c04-replay":
 		cmdC04Replay(a)
+	case "plan-replay":
+		cmdPlanReplay(a)
+	case "plan-trace-check":
+		cmdPlanTraceCheck(a)
 	case "replay":
 		cmdReplay(a)
 	case "lex-trace-check":
